@@ -3,6 +3,7 @@ package main
 import (
 	"errors"
 	"fmt"
+	"golang.org/x/sys/unix"
 	"os"
 	"path/filepath"
 	"runtime"
@@ -97,9 +98,9 @@ func (c *concCtx) scenarioClose(bufsz uint, consumer string, pending string) {
 	defer os.RemoveAll(dir)
 	var w *fsnotify.Watcher
 	if bufsz == 0 {
-		w, err = fsnotify.NewWatcher()
+		w, err = newW()
 	} else {
-		w, err = fsnotify.NewBufferedWatcher(bufsz)
+		w, err = newBW(bufsz)
 	}
 	check(err)
 	f := filepath.Join(dir, "watched-file")
@@ -263,9 +264,9 @@ func (c *concCtx) scenarioLeak(cycles int) {
 	for i := 0; i < cycles; i++ {
 		var w *fsnotify.Watcher
 		if i%2 == 0 {
-			w, err = fsnotify.NewWatcher()
+			w, err = newW()
 		} else {
-			w, err = fsnotify.NewBufferedWatcher(uint(i % 7))
+			w, err = newBW(uint(i % 7))
 		}
 		check(err)
 		w.Add(dir)
@@ -297,6 +298,28 @@ func (c *concCtx) scenarioLeak(cycles int) {
 	c.r.emit("scenario", fmt.Sprintf("scenario leak_cycles=%d", cycles), "ok")
 }
 
+// newW / newBW: constructors that wait out a transient EMFILE (the per-user inotify instance limit is
+// shared with every other process of this user, e.g. checks running in parallel)
+func retryEMFILE(mk func() (*fsnotify.Watcher, error)) (*fsnotify.Watcher, error) {
+	var w *fsnotify.Watcher
+	var err error
+	for i := 0; i < 600; i++ {
+		w, err = mk()
+		if err == nil || !(errors.Is(err, unix.EMFILE) || errors.Is(err, unix.ENFILE)) {
+			return w, err
+		}
+		time.Sleep(100 * time.Millisecond)
+		beat()
+	}
+	return w, err
+}
+
+func newBW(sz uint) (*fsnotify.Watcher, error) {
+	return retryEMFILE(func() (*fsnotify.Watcher, error) { return fsnotify.NewBufferedWatcher(sz) })
+}
+
+func newW() (*fsnotify.Watcher, error) { return retryEMFILE(fsnotify.NewWatcher) }
+
 // scenarioNewFails: C13 — NewWatcher failing at inotify_init1 (per-user instance limit) leaks nothing.
 func (c *concCtx) scenarioNewFails() {
 	runtime.GC()
@@ -304,7 +327,16 @@ func (c *concCtx) scenarioNewFails() {
 	fd0, g0 := inotifyFds(), fsnotifyGoroutines()
 	var ws []*fsnotify.Watcher
 	failed := 0
-	for i := 0; i < 4096; i++ {
+	// make inotify_init1 fail with EMFILE through THIS process's descriptor limit: exhausting the
+	// per-user instance limit instead would make every other process's NewWatcher fail meanwhile
+	var lim, old unix.Rlimit
+	check(unix.Getrlimit(unix.RLIMIT_NOFILE, &lim))
+	old = lim
+	ents, _ := os.ReadDir("/proc/self/fd")
+	lim.Cur = uint64(len(ents) + 24)
+	check(unix.Setrlimit(unix.RLIMIT_NOFILE, &lim))
+	defer unix.Setrlimit(unix.RLIMIT_NOFILE, &old)
+	for i := 0; i < 256; i++ {
 		w, err := fsnotify.NewWatcher()
 		if err != nil {
 			failed++
@@ -315,6 +347,7 @@ func (c *concCtx) scenarioNewFails() {
 		}
 		ws = append(ws, w)
 	}
+	unix.Setrlimit(unix.RLIMIT_NOFILE, &old) // (counting descriptors needs one itself)
 	held := len(ws)
 	// (counts are compared after settling: a freshly created reader may not have been scheduled yet)
 	settle(func() bool { return inotifyFds() == fd0+held && fsnotifyGoroutines() == g0+held })
@@ -324,6 +357,7 @@ func (c *concCtx) scenarioNewFails() {
 	if failed > 0 && fsnotifyGoroutines() != g0+held {
 		c.report("C13", "C13:failed-new-leaks-goroutine", fmt.Sprintf("%d failed NewWatcher calls: %d reader goroutines for %d live Watchers", failed, fsnotifyGoroutines()-g0, held), map[string]interface{}{})
 	}
+	unix.Setrlimit(unix.RLIMIT_NOFILE, &old)
 	for _, w := range ws {
 		w.Close()
 	}
@@ -394,7 +428,7 @@ func (c *concCtx) scenarioLinearizable(g *rng, round int) {
 		check(os.Mkdir(p, 0o755))
 		paths = append(paths, p)
 	}
-	w, err := fsnotify.NewBufferedWatcher(uint(g.intn(3)))
+	w, err := newBW(uint(g.intn(3)))
 	check(err)
 	defer w.Close()
 	go func() { // consumer with some pacing
@@ -503,9 +537,9 @@ func (c *concCtx) scenarioIndependence(g *rng, nw int) {
 		sz := sizes[i%len(sizes)]
 		var w *fsnotify.Watcher
 		if sz == 0 {
-			w, err = fsnotify.NewWatcher()
+			w, err = newW()
 		} else {
-			w, err = fsnotify.NewBufferedWatcher(sz)
+			w, err = newBW(sz)
 		}
 		check(err)
 		want := int(sz)
@@ -617,7 +651,7 @@ func (c *concCtx) scenarioLagging(g *rng, round int) {
 	}
 	var ws []*wrec
 	for _, sz := range sizes {
-		w, err := fsnotify.NewBufferedWatcher(sz)
+		w, err := newBW(sz)
 		check(err)
 		check(w.Add(dir))
 		check(w.Add(f))
@@ -708,11 +742,11 @@ func (c *concCtx) scenarioStaleHandle() {
 	check(err)
 	defer os.RemoveAll(dir)
 	for round := 0; round < 20; round++ {
-		a, err := fsnotify.NewWatcher()
+		a, err := newW()
 		check(err)
 		check(a.Add(dir))
 		a.Close()
-		b, err := fsnotify.NewWatcher() // usually gets the descriptor number a had
+		b, err := newW() // usually gets the descriptor number a had
 		check(err)
 		check(b.Add(dir))
 		a.Remove(dir)
@@ -744,7 +778,7 @@ func (c *concCtx) scenarioAbsorb(sz uint) {
 	dir, err := os.MkdirTemp("", "fsnverif-abs")
 	check(err)
 	defer os.RemoveAll(dir)
-	w, err := fsnotify.NewBufferedWatcher(sz)
+	w, err := newBW(sz)
 	check(err)
 	defer w.Close()
 	check(w.Add(dir))
@@ -881,7 +915,7 @@ func (c *concCtx) raceClose(r *rec, prop string, thorough bool) {
 	runtime.GC()
 	fd0, g0 := inotifyFds(), fsnotifyGoroutines()
 	for i := 0; i < m; i++ {
-		w, err := fsnotify.NewWatcher()
+		w, err := newW()
 		check(err)
 		var wg sync.WaitGroup
 		nrem := 1 + i%3
